@@ -80,6 +80,10 @@ class LineSet(primitive.Primitive):
         self.index = index
         self.indices = self.index
         self.nindices = max_offset + 1
+        if self.index.size % (2 * self.nindices) != 0:
+            raise DaeMalformedError(
+                'Index of a line set with %d entries is not a multiple of 2 corners x %d inputs'
+                % (self.index.size, self.nindices))
         self.index.shape = (-1, 2, self.nindices)
         self.nlines = len(self.index)
 
